@@ -53,7 +53,7 @@ def check(run):
             lines.append((cid, "hselect %s %s 0 %s" % (dump, hl.hx(name), hl.names([hl.unq(t["cols"][0]), "nosuchcolumn"]))))
             meta[cid] = (db, [], None, "Select with an unknown column")
         conn.close()
-    res, impl, model = ops.run_cmds("c01-select", lines, timeout=1500)
+    res, impl, model = ops.run_cmds("c01-select", lines, timeout=1500, shards=8)
     shapes = {}
     for cid, cmd in lines:
         if cid not in meta:
